@@ -7,8 +7,8 @@
 (*   (a) Init => IndInv             --init=Init   --inv=IndInv --length=0  *)
 (*   (b) IndInv /\ Next => IndInv'  --init=IndInv --inv=IndInv --length=1  *)
 (*   (c) IndInv => Safety           --init=IndInv --inv=Safety --length=0  *)
-(* for ALL sets Installers, Emitters of integers with at most MaxProc      *)
-(* elements each (ConstInit: Gen(MaxProc) = any set of that size bound)    *)
+(* for ALL sets Installers, Emitters of integers with at most n elements    *)
+(* each (ConstInit<n>: Gen(n) = any set within that size bound)            *)
 (* and ALL NEmits >= 0.                                                    *)
 (***************************************************************************)
 EXTENDS Integers, FiniteSets, Apalache
@@ -49,17 +49,19 @@ VARIABLES
 
 INSTANCE OnceCell
 
-\* bound on the number of installers and on the number of emitters (Gen needs a literal)
-MaxProc == 6
-
-\* any two disjoint finite sets of integers (at most MaxProc elements each), 0 is the no-op recorder
-ConstInit ==
-  /\ Installers = Gen(MaxProc)
-  /\ Emitters = Gen(MaxProc)
+\* any two disjoint finite sets of integers with at most n elements each (Gen(n): any set of that
+\* size bound, of any integers); 0 is the no-op recorder; any number of emissions per emitter
+CInit(n) ==
+  /\ Installers = Gen(n)
+  /\ Emitters = Gen(n)
   /\ NEmits = Gen(1)
   /\ NEmits >= 0
   /\ Noop \notin Installers
   /\ Installers \cap Emitters = {}
+ConstInit4 == CInit(4)
+ConstInit6 == CInit(6)
+ConstInit8 == CInit(8)
+ConstInit12 == CInit(12)
 
 \* installer i is, or has been, the winner of the CAS
 Winner(i) == ipc[i] \in {"write", "pub"} \/ ires[i] = "ok"
